@@ -265,3 +265,23 @@ def run(pid, tier, seed, args):
     print("C19 %s: evaluations=%d crash_images=%d preexisting_cases=%d wall=%.1fs violations=%d (unlisted %d)" % (
         tier, n_eval, n_img, n_pre, time.time() - t0, len(viols), n_unknown))
     return 1 if n_unknown else 0
+
+
+def replay(path):
+    """the families are tiny: re-run them and show the violations of the recorded case"""
+    seams.install()
+    with open(path) as f:
+        rp = json.load(f)
+    want = rp.get("history") or {}
+    viols = []
+    for entry in ENTRY:
+        viols += creation_crashes(entry)[0]
+    for kind in ("channel", "usage"):
+        viols += preexisting(kind)[0]
+    bad = [v for v in viols if v["clause"] == rp.get("clause") and (v.get("history") or {}) == want] or \
+        [v for v in viols if v["clause"] == rp.get("clause")]
+    for v in bad[:5]:
+        print("  -> VIOLATED clause=%s case=%s detail=%s" % (v["clause"], json.dumps(v.get("history"), default=repr),
+                                                        json.dumps(v["detail"], default=repr)[:1500]))
+    print("replay: %d violation(s)" % len(bad))
+    return 1 if bad else 0
